@@ -579,11 +579,12 @@ def _get_area(
     area = []
 
     for interval in intervals:
-        if interval[0] > global_axis[-1]:
+        lower, upper = min(interval), max(interval)
+        if lower > global_axis[-1]:
             continue
         bounded_interval = (
-            max(interval[0], np.min(global_axis)),
-            min(interval[1], np.max(global_axis)),
+            max(lower, np.min(global_axis)),
+            min(upper, np.max(global_axis)),
         )
 
         interval_slice = DataProvider.get_axis_slice_from_interval(bounded_interval, global_axis)
